@@ -49,6 +49,12 @@ Section Stack.
     = redirect U host_of join ar (restricted U scheme_of host_of port_of (Some hs) client).
   Proof. exact (default_stack_with_list U scheme_of host_of port_of join). Qed.
 
+  (* the async builder (read separately from build_default_async_resolver) builds the same stack, so the theorems below
+     hold for it as well *)
+  Theorem c26_stack_order_async : forall allow ar client,
+    default_stack_async U scheme_of host_of port_of join allow ar client = stack allow ar client.
+  Proof. exact (default_stack_async_same U scheme_of host_of port_of join). Qed.
+
   (* every request that reaches the transport — hop 0 or any redirect hop, for every script — is allowed *)
   Theorem c26_every_request_allowed : forall hs ar rq st st' tr r,
     stack (Some hs) ar (transport U) rq st = (st', tr, r) ->
